@@ -27,7 +27,37 @@ Definition mk_out (segs : list (list (Z * Z))) (lens : list Z) (seqs : list (lis
 
 Inductive case :=
 | CProg (c : cfg) (tbl : list wfdata) (prog : loop) (impl : option out)     (* None: the implementation raised *)
+| CTwice (c1 c : cfg) (tbl : list wfdata) (prog0 prog1 : loop) (impl : option out)
+    (* the Loop prog0 was compiled with c1 first (result ignored); prog1 = the tree read back from the Loop object
+       afterwards; impl = observation of the second compilation (configuration c) of the same object *)
 | CCrash.                                                                  (* unexpected exception / hang *)
+
+(* strict structural equality of trees (volatile properties syntactically) *)
+Fixpoint vprop_same (a b : vprop) : bool :=
+  match a, b with
+  | VId k i, VId k' i' => (k =? k') && (i =? i')
+  | VOp k p c, VOp k' p' c' => (k =? k') && vprop_same p p' && vprop_same c c'
+  | _, _ => false
+  end.
+
+Definition meta_same (a b : nmeta) : bool :=
+  Bool.eqb (has_meas a) (has_meas b) &&
+  match vol a, vol b with None, None => true | Some u, Some v => vprop_same u v | _, _ => false end.
+
+Definition optnat_same (a b : option nat) : bool :=
+  match a, b with None, None => true | Some x, Some y => Nat.eqb x y | _, _ => false end.
+
+Fixpoint loop_same (a b : loop) : bool :=
+  match a, b with
+  | Loop r m w ch, Loop r' m' w' ch' =>
+      (r =? r') && meta_same m m' && optnat_same w w' &&
+      (fix go (x y : list loop) : bool :=
+         match x, y with
+         | [], [] => true
+         | p :: x', q :: y' => loop_same p q && go x' y'
+         | _, _ => false
+         end) ch ch'
+  end.
 
 Definition zz_eqb (a b : Z * Z) : bool := (fst a =? fst b) && (snd a =? snd b).
 
@@ -49,6 +79,15 @@ Definition check_corr (k : case) : bool :=
       | Err _, None => true
       | _, _ => false
       end
+  | CTwice c1 c tbl prog0 prog1 impl =>
+      (* the model of the in-place effect of the first compilation = the tree found in the Loop object, and the model
+         of the second compilation (started from that tree) = implementation *)
+      loop_same (tree_after c1 prog0) prog1 &&
+      match compile c tbl prog1, impl with
+      | Ok o, Some o' => out_eqb o o'
+      | Err _, None => true
+      | _, _ => false
+      end
   | CCrash => false
   end.
 
@@ -66,6 +105,16 @@ Definition check_spec (k : case) : bool :=
           | _, _ => false
           end
       end
+  | CTwice c1 c tbl prog0 prog1 impl =>
+      (* the specification of the ORIGINAL program (as built, before anything compiled it) *)
+      match impl with
+      | None => true
+      | Some o' =>
+          match spec_cached c tbl prog0, expand o' with
+          | Some s, Some s' => streams_eqb s s' && limits_ok c o'
+          | _, _ => false
+          end
+      end
   | CCrash => false
   end.
 
@@ -75,5 +124,8 @@ Definition check_plays (k : case) : bool :=
   | CProg c tbl prog (Some o') =>
       match spec_cached c tbl prog, expand o' with Some s, Some s' => streams_eqb s s' | _, _ => false end
   | CProg _ _ _ None => true
+  | CTwice _ c tbl prog0 _ (Some o') =>
+      match spec_cached c tbl prog0, expand o' with Some s, Some s' => streams_eqb s s' | _, _ => false end
+  | CTwice _ _ _ _ _ None => true
   | CCrash => false
   end.
